@@ -3,7 +3,7 @@
 import ast
 
 from ..core.analysis import Analysis, assigned_names, facts
-from ..core.astutil import handler_catches, method_calls
+from ..core.astutil import handler_catches, method_calls, path_templates
 from ..core.cfg import handler_names
 from ..core.escape import OS_FAMILY, Escape, Exc, State
 from ..core.pyrepo import Repo, calls_in, dotted, norm_stmt
@@ -151,6 +151,26 @@ def run(ctx):
                  "; ".join(probs) or "translator raises vanished")
     else:
         ctx.ok("C03.R2", "translate:args", sample="(pid, name) = (self.pid, self._name)")
+    # the liveness probe: what is looked at to decide that an ENOENT is not the
+    # process vanishing.  /proc/<pid> itself (the directory) outlives its entries
+    # while the task is being torn down (psutil issue 2418), so the probe must look
+    # at an entry below it - <pid>/stat - not at the directory
+    probes = [c for c in ast.walk(w.node) if isinstance(c, ast.Call)
+              and dotted(c.func) in ("os.path.exists", "os.path.isfile", "os.path.lexists",
+                                     "os.stat", "os.access", "pid_exists")]
+    pt = set()
+    for c in probes:
+        if c.args:
+            pt |= {t_ for t_ in path_templates(repo, w, c.args[0])}
+    leafs = {t_.rsplit("}", 1)[-1] for t_ in pt if "{" in t_}
+    if pt and leafs <= {"/stat", "/status"}:
+        ctx.ok("C03.R2", "liveness-probe", sample=sorted(pt))
+    else:
+        ctx.fail("C03.R2", "liveness-probe", w.file, w.node.lineno, w.qual,
+                 f"after ENOENT the translator decides the process is alive by probing "
+                 f"{sorted(pt) or 'nothing'}: the /proc/<pid> directory still exists while the "
+                 f"task is torn down, so every query would leak a bare FileNotFoundError "
+                 f"instead of NoSuchProcess; the probe must be <pid>/stat")
     # the zombie probe
     iz = repo.func(pm, "Process._is_zombie")
     rz = repo.func(pm, "Process._raise_if_zombie")
